@@ -3,6 +3,10 @@ import SteelVerif.C17.GenPolls
 open SteelVerif.C17
 #print axioms ready_step
 #print axioms interrupt_bounded
+#print axioms interrupt_bounded_error
+#print axioms readyNative_reached
+#print axioms readyNative_ready
+#print axioms interrupt_end_to_end_partial
 #print axioms poll_delivers
 #print axioms interrupt_not_lost_partial
 #print axioms lostInterrupt_lost
